@@ -60,27 +60,35 @@ def _flat(x):
 
 
 def min_max_count(batches, axis=None, score=None):
-  """count = number of scalars seen; min starts at +inf, max starts at 0.
+  """count = number of scalars seen; min / max = the smallest / largest value
+  that occurred (textbook: nothing but the data enters, whatever its sign).
 
-  score None: min/max over the values (axis None: all values; axis 0:
-  column-wise over all rows of all batches). score 'len': min/max over the
-  batch lengths.
+  score None: min/max over the values (axis None: all values; axis 0 / -1 on
+  1-D batches: all values; axis 0 on 2-D batches: column-wise over all rows of
+  all batches). score 'len' / 'sum': min/max over one score per batch.
   """
   count = sum(1 for b in batches for _ in _flat(b))
-  if score == 'len':
-    lens = [len(b) for b in batches]
-    return {'count': count, 'min': min(lens), 'max': max(lens + [0])}
-  if axis is None:
+  if score is not None:
+    if score == 'len':
+      scores = [len(b) for b in batches]
+    elif score == 'sum':
+      scores = [sum((cm.frac(v) for v in _flat(b)), Fraction(0)) for b in batches]
+    else:
+      raise ValueError(score)
+    return {'count': count, 'min': min(scores), 'max': max(scores)}
+  two_d = bool(batches) and bool(batches[0]) and isinstance(batches[0][0], (list, tuple))
+  if axis is None or not two_d:
+    if axis not in (None, 0, -1):
+      raise ValueError(axis)
     vals = [cm.frac(v) for b in batches for v in _flat(b)]
-    return {'count': count, 'min': min(vals), 'max': max(vals + [Fraction(0)])}
+    return {'count': count, 'min': min(vals), 'max': max(vals)}
   if axis == 0:
     rows = [r for b in batches for r in b]
     ncol = len(rows[0])
     return {
         'count': count,
         'min': [min(cm.frac(r[j]) for r in rows) for j in range(ncol)],
-        'max': [max([cm.frac(r[j]) for r in rows] + [Fraction(0)])
-                for j in range(ncol)],
+        'max': [max(cm.frac(r[j]) for r in rows) for j in range(ncol)],
     }
   raise ValueError(axis)
 
@@ -294,10 +302,15 @@ def binary_cross_entropy(y_true, y_pred):
 
 
 def categorical_cross_entropy(y_true, y_pred):
+  """-sum_i t_i * ln(p_i / sum(p)) with the convention 0 * ln(0) = 0: a class
+  that is not true contributes nothing whatever its probability; a true class
+  with probability 0 makes the loss +inf. sum(p) > 0 required."""
   s = sum((cm.frac(p) for p in y_pred), Fraction(0))
   tot = cm.Decimal(0)
   for t, p in zip(y_true, y_pred):
     if t == 1:
+      if cm.frac(p) == 0:
+        return float('inf')
       tot = cm.add(tot, cm.dln(cm.frac(p) / s))
   return -tot
 
